@@ -9,7 +9,8 @@ const X = require('../oracles/exec')
 const { norm } = require('../oracles/erase')
 
 async function build (tier) {
-  const r = F.all(tier, { families: ['A', 'B', 'C', 'G', 'M'] })
+  // quick tier: in family B a second deviation is only taken as (statement ctx x expression ctx) pair
+  const r = F.all(tier, { families: ['A', 'B', 'C', 'G', 'M', 'S'], B: tier === 'thorough' ? {} : { pairs: 'ctx-only' } })
   return {
     leaves: r.leaves,
     stats: r.stats,
